@@ -532,3 +532,94 @@ _c06_prev3 = harnesses
 
 def harnesses(tier):   # noqa: F811
     return _c06_prev3(tier) + [UnitText(2 if tier == 'quick' else 4)]
+
+
+# --------------------------------------------------------------------------------------------------------------
+# The constant of a conversion target as printed by Context::show: `* factor / divfactor` is exactly that constant.
+
+class ShowFactor(Harness):
+    name = 'context.show.factor_is_the_target_constant'
+    props = ('C06', 'C03')
+    entry_name = 'Context::show'
+    loop_bound = 12
+    describe = ('Context::show with an arbitrary rational target constant c: the printed `factor` and `divfactor` (each present or absent) are '
+                'integers whose quotient is exactly c - the reply never prints a rounded constant')
+    bounds = ['one conversion reply; numeral and unit text replaced by markers']
+    expect_classes = ['return']
+    _concrete = None
+    stubs = (DEFAULT_PARTS, CANON_STUB,
+             (r'^Number::numeric_value$', lambda ex, nc, a: Tup([some(ex, 'NUMERAL'), none(ex)]), 'Number::numeric_value -> marker numeral'),
+             (r'^Number::(to_parts|to_parts_digits|to_parts_simple)$', lambda ex, nc, a: Struct('NumberParts', [none(ex)] * len(ex.prog.src.structs['NumberParts'])),
+              'Number::to_parts -> empty parts'),
+             (r'^Number::unit_to_string$', lambda ex, nc, a: 'unit', 'Number::unit_to_string -> marker'),
+             (r'^Numeric::to_string$|^BigRat::to_string$', lambda ex, nc, a: Tup([ex.fresh('printer_exact', 'Bool'), 'DECIMAL-TEXT']),
+              'the digit printer -> (arbitrary exactness flag, marker text): any use of it for the constant is visible'))
+
+    def build(self, ex, I):
+        c = I.real('c')
+        ex.assume(c > 0)
+        names = MapV()
+        names.ent['meter'] = ['meter', True, 1]
+        raw = number(rational(I.real('x')), dim({}))
+        bottom = number(rational(I.real('b')), dim({'m': (True, 1)}))
+        return [ref(Opaque('Context')), ref(raw), ref(bottom), names, rational(c), 10, variant(ex, 'Digits', 'Default')], {'c': c}
+
+    def entry(self, ex, args, ctx):
+        return ex.call(None, 'loader::context::Context::show', list(args))
+
+    def post(self, ex, ctx, outcome):
+        rep = deref_all(outcome[1])
+        parts = deref_all(rep.fields[0])
+        f = ex.prog.src.structs['NumberParts']
+        c = zreal(ctx['c'])
+
+        def value_of(opt, what):
+            opt = deref_all(opt)
+            if opt.variant == 0:
+                return z3.IntVal(1), None
+            t = deref_all(opt.fields[0])
+            if isinstance(t, str) and t.lstrip('-').isdigit():
+                return z3.IntVal(int(t)), None
+            if isinstance(t, Opaque) and isinstance(t.info, tuple) and t.info[0] == 'pieces' and len(t.info[1]) == 1 and isinstance(t.info[1][0], tuple):
+                return zint(deref_all(t.info[1][0][1])), None
+            return None, '%s is printed as %r, not as an integer' % (what, t)
+        fv, e1 = value_of(parts.fields[f.index('factor')], 'factor')
+        dv, e2 = value_of(parts.fields[f.index('divfactor')], 'divfactor')
+        if e1 or e2:
+            return [(e1 or e2, False)]
+        return [('factor / divfactor is exactly the target constant', z3.And(dv != 0, z3.ToReal(fv) == c * z3.ToReal(dv))),
+                ('a factor of 1 is not printed', z3.Implies(fv == 1, deref_all(parts.fields[f.index('factor')]).variant == 0)),
+                ('a divisor of 1 is not printed', z3.Implies(dv == 1, deref_all(parts.fields[f.index('divfactor')]).variant == 0))]
+
+    def prefer(self, ctx):
+        c = ctx['c']
+        return [c == zreal(Fraction(45359237, 100000000)), z3.And(c > 0, c < 1000), z3.IsInt(c * 1000)]
+
+    def native(self, inputs, label):
+        c = Fraction(inputs['c'])
+        return [{'mode': 'query', 'text': '1000 m -> (%s) m' % frac_text(c)}, {'mode': 'query', 'text': '1 lb -> 0.45359237 kg'},
+                {'mode': 'query', 'text': '6.2831853 m -> 3.14159265 m'}]
+
+    def judge(self, inputs, label, obs):
+        bad = []
+        consts = [Fraction(inputs['c']), Fraction(45359237, 100000000), Fraction(314159265, 100000000)]
+        for o, c in zip(obs, consts):
+            if o.get('outcome') == 'panic' or o.get('render_panic'):
+                bad.append('panic %s' % (o.get('panic') or o.get('render_panic')))
+                continue
+            v = (o.get('json') or {}).get('value') or {}
+            try:
+                shown = Fraction(v.get('factor') or 1) / Fraction(v.get('divfactor') or 1)
+            except (ValueError, ZeroDivisionError):
+                bad.append('factor %r / divfactor %r are not numbers' % (v.get('factor'), v.get('divfactor')))
+                continue
+            if o.get('outcome') == 'ok' and shown != c:
+                bad.append('%r prints the constant as %s, the target constant is %s' % (o.get('display'), shown, c))
+        return bool(bad), '; '.join(bad[:2]) or 'printed constants are exact'
+
+
+_c06_prev4 = harnesses
+
+
+def harnesses(tier):   # noqa: F811
+    return _c06_prev4(tier) + [ShowFactor()]
